@@ -44,6 +44,20 @@ class LNode(LightNodeMixin):                  # __slots__ class: protocols >= 2 
         self.parent = parent
 
 
+class LDictNode(LightNodeMixin):              # a LightNodeMixin subclass *without* __slots__: attributes live in __dict__
+    def __init__(self, label, parent=None):
+        self.label = label
+        self.name = "d%d" % label
+        self.extra = ["d", label]
+        self.parent = parent
+
+
+class LMixedNode(LNode):                      # slots from the base class plus an instance dictionary of its own
+    def __init__(self, label, parent=None):
+        LNode.__init__(self, label, parent)
+        self.colour = "c%d" % label
+
+
 def make(kind, label, target=None):
     if kind == "node":
         return Node("n%d" % label, label=label)
@@ -57,6 +71,10 @@ def make(kind, label, target=None):
         return EqNode(label)
     if kind == "light":
         return LNode(label)
+    if kind == "lightdict":
+        return LDictNode(label)
+    if kind == "lightmixed":
+        return LMixedNode(label)
     if kind == "symlink":
         return SymlinkNode(target)
     raise ValueError(kind)
@@ -85,7 +103,10 @@ def describe(entry):
         if isinstance(o, SymlinkNodeMixin):
             attrs = {"target": ids[id(o.__dict__["target"])]}
         elif isinstance(o, LNode):
-            attrs = {"label": o.label, "extra": list(o.extra)}
+            attrs = {"label": o.label, "extra": list(o.extra), "name": o.name}
+            attrs.update({k: v for k, v in getattr(o, "__dict__", {}).items()})
+        elif isinstance(o, LDictNode):
+            attrs = {k: v for k, v in o.__dict__.items() if not k.startswith("_LightNodeMixin")}
         else:
             attrs = {k: v for k, v in o.__dict__.items() if not k.startswith("_NodeMixin")}
         desc.append({"cls": type(o).__name__, "parent": None if o.parent is None else ids[id(o.parent)],
@@ -124,7 +145,7 @@ def impl(case):
         except (anytree.LoopError, anytree.TreeError):
             pass
     lab_by_id = {id(o): i for i, o in enumerate(objs)}
-    has_slots = any(k == "light" for k in kinds)
+    has_slots = any(k in ("light", "lightmixed") for k in kinds)
     results = []
     reach_sets = []
     for e, entry in enumerate(objs):
